@@ -334,12 +334,24 @@ func ruleC17R3(c *Ctx) {
 		for _, st := range storesToField(f, fLoader) {
 			n++
 			ok := anchorName(f) == aNewReloader || (f.Parent() != nil && anchorName(f.Parent()) == aInitReload)
-			if !ok && f.Parent() == nil && anchorName(f) != aInitReload {
-				// a private helper of the completion closure (never of initiateDownstreamReload's own body, which runs
-				// before the caller has decided to complete the reload)
-				for _, cl := range fn.AnonFuncs {
-					if c.helpersOf(cl)[f] {
-						ok = true
+			if !ok && f.Parent() == nil && anchorName(f) != aInitReload && ownedBy(f, aInitReload) {
+				// a private helper of the completion function (a closure, or a method value handed out as such) — never a
+				// helper that initiateDownstreamReload's own body calls: that runs before the caller has decided to complete
+				ok = true
+				c.P.onlyCalledFrom(fn, nil) // builds the static call index
+				for _, on := range ownerNames(f) {
+					if on == aInitReload {
+						break
+					}
+					for _, g := range c.P.universe {
+						if anchorName(g) != on {
+							continue
+						}
+						for _, site := range c.P.staticSites[g] {
+							if site.Parent() == fn {
+								ok = false
+							}
+						}
 					}
 				}
 			}
@@ -783,7 +795,13 @@ func ruleC17R9(c *Ctx) {
 	}
 	// carried-over fields: stores in the completion closure(s) whose value is a load of the same field of another object
 	carried := map[string]token.Pos{}
-	for _, g := range c.regionOf(ir) {
+	var completion []*ssa.Function
+	for _, g := range c.P.universe {
+		if g.Parent() == nil && g.Blocks != nil && (g == ir || ownedBy(g, aInitReload)) {
+			completion = append(completion, g)
+		}
+	}
+	for _, g := range completion {
 		for _, f := range withAnons(g) {
 			eachInstr(f, func(in ssa.Instruction) {
 				st, ok := in.(*ssa.Store)
